@@ -136,7 +136,7 @@ def run_dist(case, R):
     fam, D, N, lead = case['fam'], case['D'], case['N'], tuple(case['lead'])
     real = fam in ('gauss', 'diag', 'spher', 'vmf')
     y = rng.standard_normal((*lead, N, D)) if real else gen.cnormal(rng, (*lead, N, D))
-    if real and case['rs'][-1] % 4 == 0:
+    if real and case['rs'][-1] % 4 == 0 and case['cls'] not in ('ragged', 'scaled_up'):     # (1e150-fold gains on top of the offset would leave the range in which squares are finite)
         y = y + oracles_unit(rng.standard_normal((1,) * len(lead) + (1, D))) * float(rng.choice([1e4, 1e5, 1e6]))     # far from the origin
     cls = case['cls']
     if cls in ('short', 'short1'):
